@@ -755,9 +755,9 @@ impl<R, T, F, M> Link<R, T, F, M> {
             _ => r == Err::<(), DetachError>(DetachError::IllegalState) && final(self).local_state == old(self).local_state && final(self).output_handle == old(self).output_handle,
         }),                                                                                                   // [C13.link.peer-detach] likewise for a non-closing detach
         !detach.closed && (old(self).local_state is Attached || old(self).local_state is DetachSent) ==>
-            (match detach.error { Some(e) => r == Err::<(), DetachError>(DetachError::RemoteDetachedWithError(e)), None => r is Ok }),   // [C13.link.peer-detach-error]
+            (match detach.error { Some(e) => r == Err::<(), DetachError>(DetachError::RemoteDetachedWithError(e)), None => r is Ok }),   // [C13.link.peer-detach-error] [C14.link.peer-detach-error]
         r is Err && r->Err_0 is ClosedByRemote ==> old(self).local_state is DetachSent && detach.closed && detach.error is None,
-        detach.error is Some ==> r is Err && !(r->Err_0 is ClosedByRemote) && !(r->Err_0 is DetachedByRemote),       // [C13.link.peer-detach-error-reported] a detach of the peer that carries an error is never reported as a plain ClosedByRemote / DetachedByRemote (nor as success)
+        detach.error is Some ==> r is Err && !(r->Err_0 is ClosedByRemote) && !(r->Err_0 is DetachedByRemote),       // [C13.link.peer-detach-error-reported] [C14.link.peer-detach-error-reported] a detach of the peer that carries an error is never reported as a plain ClosedByRemote / DetachedByRemote (nor as success)
         final(self).input_handle == old(self).input_handle && final(self).name == old(self).name,
 //@@ end
 
